@@ -1,6 +1,7 @@
 package task
 
 import (
+	"fmt"
 	"slices"
 
 	"github.com/go-task/task/v3/errors"
@@ -48,8 +49,13 @@ func (e *Executor) areTaskRequiredVarsAllowedValuesSet(t *ast.Task) error {
 		}
 		varValue, _ := t.Vars.Get(requiredVar.Name)
 
+		// Values that are not strings (numbers, booleans, ...) are compared
+		// by the text they render to
 		value, isString := varValue.Value.(string)
-		if isString && requiredVar.Enum != nil && !slices.Contains(requiredVar.Enum, value) {
+		if !isString {
+			value = fmt.Sprint(varValue.Value)
+		}
+		if requiredVar.Enum != nil && !slices.Contains(requiredVar.Enum, value) {
 			notAllowedValuesVars = append(notAllowedValuesVars, errors.NotAllowedVar{
 				Value: value,
 				Enum:  requiredVar.Enum,
